@@ -755,7 +755,7 @@ def c12(ctx):
     ctx.validate(files)
     # "alone or bundled": the same chunks re-bundled in transit must have the same effect -- every monitor counts here
     ctx.validate(directed_traces(ctx, "rebundle", 8, {"VF_N": 24 if ctx.quick else 400}), claim_all="C12_Bundled")
-    ctx.notes.append("every bundle of <= %d chunk variants (30 variants over all 16 chunk kinds) enumerated by TLC, concretised with boundary field values; "
+    ctx.notes.append("every bundle of <= %d chunk variants (31 variants over all 16 chunk kinds) enumerated by TLC, concretised with boundary field values; "
                      "bit-exact fidelity for ALL field values is not claimed (boundary grid)" % (2 if ctx.quick else 3))
 
 
